@@ -5,6 +5,8 @@ package main
 // Every entry is a literal example or a direct consequence of a sentence of
 // the Config documentation ("prohibited").
 
+import "strings"
+
 // Planted is one planted violation: a kind index and an argument selector.
 type Planted struct {
 	Kind int `json:"kind"`
@@ -18,7 +20,12 @@ var badOrigins = []string{
 	"https://exa*mple.com", "HTTPS://example.com", " https://example.com", "https://user@example.com", "http://0xFF000000",
 	"http://[0:0:0:0:0:0:0:0001]:9090", "https://example.com:01", "https://example.com?q", "https://example.com#f",
 	"https://*.*.example.com", "http://*.127.0.0.1", "https://example.com:", "example.com", "https://",
+	"http://[fe80::1%eth0]:8080", "http://[::ffff:1.2.3.4]", "https://*." + longLabels252, "https://" + longLabels252 + "x.toolong",
+	"https://" + strings.Repeat("a", 64) + ".example.com", strings.Repeat("s", 65) + "://example.com",
 }
+
+// 252 bytes of legal labels: one byte more than a subdomain pattern's base may have
+var longLabels252 = strings.Repeat("a", 63) + "." + strings.Repeat("b", 63) + "." + strings.Repeat("c", 63) + "." + strings.Repeat("d", 56) + ".com"
 var badMethods = []string{"CONNECT", "TRACE", "TRACK", "connect", "GE T", "", "a/b", "tRaCe"}
 var badReqHdrs = []string{"X Foo", "", "Cookie", "Sec-Foo", "proxy-x", "Host", "Access-Control-Allow-Origin",
 	"access-control-allow-headers", "Access-Control-Request-Headers", "Origin", "a:b", "Content-Length"}
